@@ -171,6 +171,8 @@ static void run(int ntok, char **tok)
 	else if (!strcmp(op, "length")) showz((long) bintLength(mkbint(tok[1])));
 	else if (!strcmp(op, "bit")) showb(bintBit(mkbint(tok[1]), (Length) hexlong(tok[2] + 1)));
 	else if (!strcmp(op, "shift")) showbint(bintShift(mkbint(tok[1]), (int) hexlong(tok[2] + 1)));
+	else if (!strcmp(op, "shiftrem"))
+		showbint((BInt) fiBIntShiftRem((FiBInt) mkbint(tok[1]), (FiSInt) hexlong(tok[2] + 1)));
 	else if (!strcmp(op, "tostr")) { String s = bintToString(mkbint(tok[1])); showstr(s); }
 	else if (!strcmp(op, "scan")) {
 		char *s = mkstr(tok[1]); String e; BInt b = bintScanFrString(s, &e);
@@ -223,6 +225,13 @@ static void run(int ntok, char **tok)
 		bintToPlacevS(mkbint(tok[1]), &sz, &d);
 		printf("l");
 		for (i = 0; i < sz; i++) printf(i ? ",%x" : "%x", d[i]);
+	}
+	else if (!strcmp(op, "rtplacevs")) {
+		/* through the 16-bit places and back (odd counts are widened in place inside the buffer of 2*placec
+		 * entries that bintToPlacevS allocated) */
+		int sz; U16 *d; BInt a = mkbint(tok[1]);
+		bintToPlacevS(a, &sz, &d);
+		showbint((BInt) fiBIntFrPlacev(bintIsNeg(a), sz, d));
 	}
 	else printf("badop");
 }
